@@ -192,6 +192,10 @@ def _tagger(line, out):
     if f[0] == "tick":
         k = sum(1 for w in main.split() if w.startswith("r") and "=" in w)
         return "tick answering %s" % ("0" if k == 0 else "1" if k == 1 else "2..5" if k <= 5 else "6+")
+    if f[0] == "rwin":
+        spec = " ".join(f[1:]).split("|")
+        return "rwin %d readers + %s (%s)" % (len([x for x in spec[0].split(";") if x.strip()]), spec[1].split()[0] if len(spec) > 1 and spec[1].split() else "?",
+                                              "writer kept out" if "blocked=1" in main else "writer NOT kept out")
     if f[0] == "window":
         ops = sorted(o.split()[0] + ("0" if o.split()[0] == "close" and o.split()[1] == "0" else "")
                      for o in " ".join(f[2:]).split(";") if o.split())
@@ -208,8 +212,17 @@ def run(ctx):
         "system with the unrepaired order (send while holding the lock), in which a deadlock is reachable "
         "(C16.unrepaired_close_deadlocks)",
         "body and unlock of an API call are one step: the holder does nothing blocking in between (answer channels have "
-        "buffer 1 and receive one value each, C16.answer_exactly_once); Cap/LastUsed/Closed (read lock) are modelled as "
-        "exclusive holders",
+        "buffer 1 and receive one value each, C16.answer_exactly_once); in RL.Step Cap/LastUsed/Closed (read lock) are "
+        "exclusive holders; that readers may overlap is modelled separately: the one-bracket calls run on the generic "
+        "readers-writer machine RW.step (Model/RWMutex.lean) as RL.callSys (Use in two micro-steps: decision, then charge "
+        "or append), C16.concurrent_readers_linearizable: under every schedule, readers inside their brackets together, "
+        "state and results are those of RL.exec one call at a time in acquisition order; contrast "
+        "C16.write_under_a_read_lock_is_not_linearizable",
+        "lines `rwin r ; r | w` of area burst run the read-lock window: the harness holds controller.lock in READ mode "
+        "(go/overlay/c16_rate_hook.go), the read-only calls made meanwhile return (a call that does not overlap is "
+        "tolerated: the property does not ask for concurrency of readers), the writing call must be kept out until the "
+        "harness lets go; the driver runs the same schedule on the readers-writer machine (RL.rwWindow, "
+        "C16.rw_window_is_a_schedule) and prints results, `blocked` and the state",
         "the history fields (answered, glog, capMax, ...) are written by the model in the same step as the action they "
         "record; that the code's critical sections do what the model's do is the transcription, checked by the tie",
         "area burst runs fused calls (RL.exec = the schedule lock/body/unlock of one call at a time); area window "
